@@ -44,6 +44,7 @@ pub fn run(ctx: &Ctx) {
     ctx.assume("domain: wire-representable values only (labels 1..=63 bytes, names <= 255, strings <= 255, TXT with at least one string, NSEC windows increasing, SVCB keys unique, LOC version 0, rcode > 15 only together with OPT, non-empty opaque RDATA)");
     let mut space = gen::packet_space(2, thorough, if thorough { 3 } else { 2 });
     space.extend(gen::many_and_sized_packets());
+    space.extend(gen::size_sweep_packets());
     let n_base = space.len();
     space.extend(gen::cross_family(if thorough { 2 } else { 1 }, thorough));
     let chunks: Vec<&[RefPacket]> = space.chunks(128).collect();
